@@ -132,6 +132,27 @@ pub fn build(g: &Grammar, thorough: bool) -> Vec<Case17> {
                 out.push(Case17 { label: format!("{label} as {enc}, {how}"), class: format!("invalid:{}-broken-length", enc.trim_end_matches("+bom")), bytes, expect });
             }
         }
+        // the file ends inside a line comment without a line break: any character can be the last one of a legal file. Characters
+        // whose last encoded byte is a control code in some encoding (0x1A, 0x00, 0x0A, 0x0D, 0x04, 0x20)
+        for ch in ['\u{221A}', '\u{011A}', '\u{1A00}', '\u{4E1A}', '\u{1F61A}', '\u{0100}', '\u{010A}', '\u{0D00}', '\u{2004}', '\u{2000}', '\u{1A}', 'z'] {
+            for enc in ENCODINGS {
+                let t2 = format!("{}\n// the last character is {ch}", text.trim_end());
+                out.push(Case17 { label: format!("{label} ending in a line comment whose last character is U+{:04X} as {enc}", ch as u32), class: format!("valid:last-char:{enc}"), bytes: encode(&t2, enc), expect: t2 });
+            }
+        }
+        // a UTF-32 file of whole code units in which one unit in the middle is no Unicode scalar value (the bytes are no valid
+        // UTF-16 and no valid UTF-8 either): not valid Unicode, read as Latin-1 as a whole - not cut off in front of the damage
+        for enc in ["utf32le", "utf32le+bom", "utf32be", "utf32be+bom"] {
+            let mut bytes = encode(text, enc);
+            let units = bytes.len() / 4;
+            for at in [units / 2, units - 1] {
+                let mut b = bytes.clone();
+                let bad: [u8; 4] = if enc.starts_with("utf32le") { [0x00, 0xD8, 0x00, 0xD8] } else { [0xD8, 0x00, 0xD8, 0x00] };
+                b[at * 4..at * 4 + 4].copy_from_slice(&bad);
+                out.push(Case17 { label: format!("{label} as {enc} with code unit {at} of {units} replaced by 0xD800D800"), class: format!("invalid:{}-bad-unit", enc.trim_end_matches("+bom")), expect: latin1(&b), bytes: b });
+            }
+            bytes.clear();
+        }
         // not valid Unicode -> read as Latin-1 as a whole
         let utf8 = text.as_bytes().to_vec();
         // (a) a stray byte at the end, (b) in the middle of the first string, (c) a truncated multi-byte sequence
